@@ -9,6 +9,7 @@ import (
 	"fmt"
 	"runtime/debug"
 	"sort"
+	"strconv"
 	"strings"
 	"sync"
 	"time"
@@ -24,11 +25,28 @@ import (
 type Case struct {
 	Cmd  string `json:"cmd"`  // command; "@wire" = raw bytes fed to FetchMessage
 	Pl   string `json:"pl"`   // payload, hex
-	Pre  string `json:"pre"`  // comma separated: nover | auth | cv2 (sendcmpct version 2 negotiated) | trusted | ahr | dupsid | ackgot | fulldb | fulldb-1 | fulldb+1
+	Pre  string `json:"pre"`  // comma separated: nover | auth | cv2 (sendcmpct version 2 negotiated) | trusted | ahr | dupsid | ackgot | fulldb | fulldb-1 | fulldb+1 | slow (the peer does not read its socket: the send buffer is never drained) | sbfill=<n> (the send buffer already holds n unsent bytes)
 	Note string `json:"note"` // where the case comes from
 	Seq  []Msg  `json:"seq,omitempty"` // messages delivered before (Cmd, Pl) on the same connection
 	Conc *ConcSpec `json:"conc,omitempty"` // Cmd "@conc": the concurrent scenario run in a child process (conc.go)
+	Rep  int       `json:"rep,omitempty"`  // the message (Cmd, Pl) is delivered Rep times before the observed delivery (same connection)
+	Child *ChildSpec `json:"child,omitempty"` // Cmd "@child": block parsing in a child process (child.go)
 }
+
+// sbfill returns the number of unsent bytes the case wants in the send buffer (-1: none asked for).
+func (c Case) sbfill() int {
+	for _, x := range strings.Split(c.Pre, ",") {
+		if strings.HasPrefix(x, "sbfill=") {
+			if n, err := strconv.Atoi(x[7:]); err == nil && n >= 0 && n < network.SendBufSize {
+				return n
+			}
+		}
+	}
+	return -1
+}
+
+// slow: a peer that sends requests but does not read the replies.
+func (c Case) slow() bool { return c.has("slow") || c.sbfill() >= 0 }
 
 type Msg struct {
 	Cmd string `json:"cmd"`
@@ -218,11 +236,36 @@ func (r *Runner) Do(cs Case) (o Obs) {
 		defer r.e.UseNormalDB()
 		limit = 3 * time.Second // the watchdog: a handler that waits for a lock it holds itself never returns
 	}
+	slow := cs.slow()
+	if slow {
+		limit = 3 * time.Second
+		if n := cs.sbfill(); n >= 0 {
+			// the state a history of replies to a peer that does not read leaves behind: n bytes queued
+			// (ring position chosen from the payload so that the wrap-around of the ring varies)
+			at := 0
+			if len(pl) > 0 {
+				at = (int(pl[0])<<16 | len(pl)) & network.SendBufMask
+			}
+			c.SendBufCons = at
+			c.SendBufProd = (at + n) & network.SendBufMask
+		}
+	}
 	pan, where, hang, dur, done := call(limit, func() {
 		for _, m := range cs.Seq {
 			b, _ := hex.DecodeString(m.Pl)
 			c.VerifDispatch(m.Cmd, b, cs.has("trusted"))
-			c.VerifDrainSent()
+			if !slow {
+				c.VerifDrainSent()
+			}
+		}
+		for i := 0; i < cs.Rep; i++ {
+			if c.IsBroken() { // Run's loop ends here
+				break
+			}
+			c.VerifDispatch(cs.Cmd, pl, cs.has("trusted"))
+			if !slow {
+				c.VerifDrainSent()
+			}
 		}
 		r.lastCollector = false
 		if cs.Cmd == "blocktxn" && len(pl) >= 32 {
@@ -259,6 +302,11 @@ func (r *Runner) Do(cs Case) (o Obs) {
 		// the handler did not return within the watchdog limit: name the global locks that are held
 		// (a handler blocked on a lock it took itself shows up here). Nothing is released: the
 		// goroutine is still running, the caller stops the run.
+		if c.Mutex.TryLock() {
+			c.Mutex.Unlock()
+		} else {
+			o.Locks = append(o.Locks, "c.Mutex")
+		}
 		for _, p := range r.probes {
 			if !p.try() {
 				o.Locks = append(o.Locks, p.name)
@@ -274,10 +322,17 @@ func (r *Runner) Do(cs Case) (o Obs) {
 			o.Ban = st.BanReason
 		}
 		o.Misbehave = st.Misbehave
-		o.sentRaw = c.VerifDrainSent()
-		for _, m := range o.sentRaw {
-			o.Sent = append(o.Sent, fmt.Sprintf("%s:%d", m.Cmd, len(m.Pl)))
+		if !slow { // (a send buffer filled to its limit is not parsed back; prepare() empties it)
+			o.sentRaw = c.VerifDrainSent()
+			for _, m := range o.sentRaw {
+				o.Sent = append(o.Sent, fmt.Sprintf("%s:%d", m.Cmd, len(m.Pl)))
+			}
 		}
+	} else if hang {
+		// the handler is still inside the real code, possibly with Mutex_net held: the connection is
+		// left alone (taking it off the list would need that lock); the caller stops the run
+		r.lastState = network.VerifState{}
+		r.conn = nil
 	} else {
 		r.lastState = network.VerifState{}
 		r.fresh()
